@@ -241,6 +241,14 @@ def jnp_choose(I, idx, choices, mode=None):
     return r
 
 
+def jnp_clip(I, x, lo=None, hi=None):
+    _used("A4: jnp.clip(x, lo, hi) = min(max(x, lo), hi); the result is an array")
+    if isinstance(x, (int, SInt, bool, SBool)) and isinstance(lo, (int, SInt)) and isinstance(hi, (int, SInt)):
+        t, l, h = zint(x), zint(lo), zint(hi)
+        return SInt(z3.If(t < l, l, z3.If(t > h, h, t)), False)
+    raise Unsupported("jnp.clip on non-integers")
+
+
 def jnp_asarray_dtype(I, x, dtype=None, copy=None):
     return jnp_array(I, x, dtype=dtype)
 
@@ -317,13 +325,16 @@ def opaque_tree_map(I, f, t, others, is_leaf):
         for l, tr in zip(leaves, trees):
             if r.t.eq(l.t):
                 return tr
-        if z3.is_app(r.t) and r.t.decl().kind() == z3.Z3_OP_ITE:
-            c, x, y = r.t.children()
-            if not any(_mentions(c, l.t) for l in leaves):
-                lx = [tr for l, tr in zip(leaves, trees) if x.eq(l.t)]
-                ly = [tr for l, tr in zip(leaves, trees) if y.eq(l.t)]
-                if lx and ly:
-                    return UVal(z3.If(c, lx[0].t, ly[0].t), lx[0].cls)
+        def select_shape(e):
+            """e is built from the leaf variables by if-then-else on conditions that do not mention the leaves"""
+            if any(e.eq(l.t) for l in leaves):
+                return True
+            if z3.is_app(e) and e.decl().kind() == z3.Z3_OP_ITE:
+                c, x, y = e.children()
+                return (not any(_mentions(c, l.t) for l in leaves)) and select_shape(x) and select_shape(y)
+            return False
+        if select_shape(r.t):
+            return UVal(z3.substitute(r.t, *sub), trees[0].cls)
         # general leafwise expression: substitute trees for leaves inside an uninterpreted lifting
     fn = I.ctx.fn(f"tree_map{k}", *([U] * (k + 1)), U)
     return UVal(fn(I.to_u(f), *[x.t for x in trees]), t.cls if t.cls not in ("leaf",) else None)
@@ -515,6 +526,7 @@ def install(I):
     e["jax.numpy.shape"] = jnp_shape
     e["jax.numpy.arange"] = jnp_arange
     e["jax.numpy.choose"] = jnp_choose
+    e["jax.numpy.clip"] = jnp_clip
     e["jax.eval_shape"] = eval_shape
     e["jax.lax.switch"] = lax_switch
     for p in ("jax.tree_util.tree_map", "jax.tree.map"):
